@@ -13,15 +13,20 @@ VARIABLES l,
           lostOK,        \* << h, pool >>: boundaries the *known finding* C06-retained-boundary-lost explains (see below)
           locks,         \* C08: note -> << owner, expiry height >> (the lock columns of the received-note tables)
           sugg,          \* C15: the ranges the wallet last suggested to the sync client
-          mck, mret      \* Layer B (TreeOps, as on the pinned tree): the checkpoint ids / retained registrations the
+          mck, mret,     \* Layer B (TreeOps, as on the pinned tree): the checkpoint ids / retained registrations the
                          \* transcribed update_tree predicts per pool; used only to recognise the known finding
+          rootEnds,      \* completion heights of the subtree roots handed to the wallet (put_*_subtree_roots)
+          taintR         \* the chain was replaced below the completion height of such a root (known finding, see below)
 Rec == ndJsonDeserialize(IOEnv.TRACE)
-cvars == << grid, gbase, cmAt, covered, lostOK, mck, mret >>
+cvars == << grid, gbase, cmAt, covered, lostOK, mck, mret, rootEnds, taintR >>
 tvars == << wvars, l, cvars, locks, sugg >>
 
 \* Known findings (DESIGN C06, known_findings.json).  The check enables an excuse only while the finding
 \* is listed as open; each use is printed so that the check can report it as KNOWN-FINDING.
 KnownStale(what)  == IOEnv.KF_STALE = "1" /\ PrintT(<< "KNOWN", "C06-stale-frontier-after-rewind", what >>)
+\* C06-stale-subtree-root-after-reorg: a subtree root handed to the wallet stays cached when the chain is replaced below
+\* the height at which that subtree was completed (same cause: shardtree leaves annotated hashes behind on truncation)
+KnownStaleRoot(what) == IOEnv.KF_STALEROOT = "1" /\ PrintT(<< "KNOWN", "C06-stale-subtree-root-after-reorg", what >>)
 KnownRetain(h, i) == IOEnv.KF_RETAIN = "1" /\ PrintT(<< "KNOWN", "C06-retained-boundary-lost", h, i >>)
 EmptyCk == [i \in 1..3 |-> {}]
 Retains(h) == grid > 0 /\ h >= 1 /\ (gbase + h) % grid = 0
@@ -63,7 +68,9 @@ QueueOK(q, sc, tp) ==
 \* In a *tainted* history (a rewind went below a frontier an earlier scan inserted) wrong roots are
 \* the known finding of DESIGN C06 and are accepted here (the check reports them as KNOWN-FINDING).
 Pools == << "S", "O", "I" >>
-VerdictOK(v, tn) == v \in {"ok", "none", "err"} \/ (tn /\ v = "wrong" /\ KnownStale("root"))
+VerdictOK(v, tn) == \/ v \in {"ok", "none", "err"}
+                    \/ (tn /\ v = "wrong" /\ KnownStale("root"))
+                    \/ (taintR' /\ v = "wrong" /\ KnownStaleRoot("root"))
 TreesOK(tr, sc, tn, cov, lost) ==
     /\ (IOEnv.EXPLAIN = "2" /\ \E i \in 1..3 : SeqToSet(tr[Pools[i]].ck) # mck'[i]) =>
           PrintT(<< "DRIFT", l, [i \in 1..3 |-> << SeqToSet(tr[Pools[i]].ck) \ mck'[i], mck'[i] \ SeqToSet(tr[Pools[i]].ck) >>] >>)
@@ -111,13 +118,13 @@ TReset == /\ IsEvent("reset")
           /\ ninfo' = << >> /\ links' = {} /\ maxFrom' = 0 /\ taint' = FALSE
           /\ tip' = Rec[l].post.tip /\ tip' \in {-1, 0}      \* 0: a wallet born into an existing chain knows the block before its birthday
           /\ grid' = Rec[l].grid /\ gbase' = Rec[l].gbase /\ cmAt' = << >> /\ covered' = {} /\ lostOK' = {}
-          /\ mck' = EmptyCk /\ mret' = EmptyCk /\ locks' = << >> /\ sugg' = << >>
+          /\ mck' = EmptyCk /\ mret' = EmptyCk /\ locks' = << >> /\ sugg' = << >> /\ rootEnds' = {} /\ taintR' = FALSE
           /\ PostOK(Rec[l].post)
 
 TBlock == /\ IsEvent("block")
           /\ Block(Rec[l].h, Rec[l].b, Rec[l].txs)
           /\ cmAt' = [x \in 1..Rec[l].h |-> IF x = Rec[l].h THEN Rec[l].cm ELSE cmAt[x]]
-          /\ UNCHANGED << grid, gbase, covered, lostOK, mck, mret, locks, sugg >>
+          /\ UNCHANGED << grid, gbase, covered, lostOK, mck, mret, rootEnds, taintR, locks, sugg >>
           /\ PostOK(Rec[l].post)
 
 TTip == /\ IsEvent("tip")
@@ -154,8 +161,8 @@ TScan == /\ IsEvent("scan") /\ UNCHANGED locks /\ UNCHANGED sugg /\ ClientStep(R
                            /\ mck' = nck
                            /\ mret' = [i \in 1..3 |-> BatchRet(mret[i], keep)]
                            /\ lostOK' = lostOK \cup { x \in gridIn \X (1..3) : x[1] \notin nck[x[2]] }
-               /\ UNCHANGED << grid, gbase, cmAt >>
-            \/ /\ Rec[l].res = "err" /\ taint /\ KnownStale("scan refused")  \* only the C06 known finding may refuse a scan
+               /\ UNCHANGED << grid, gbase, cmAt, rootEnds, taintR >>
+            \/ /\ Rec[l].res = "err" /\ ((taint /\ KnownStale("scan refused")) \/ (taintR /\ KnownStaleRoot("scan refused")))  \* only the C06 known finding may refuse a scan
                /\ UNCHANGED wvars /\ UNCHANGED cvars
          /\ PostOK(Rec[l].post)
 
@@ -176,6 +183,9 @@ TruncTo(eff) ==
     /\ mret' = [i \in 1..3 |-> { c \in mret[i] : c <= eff }]
     /\ cmAt' = IF Rec[l].fork THEN [x \in 1..Min2(top, Rec[l].to) |-> cmAt[x]] ELSE cmAt
     /\ UNCHANGED << grid, gbase >>
+    \* subtree roots completed above the height at which the chain is replaced describe an orphaned chain from now on
+    /\ taintR' = (taintR \/ (Rec[l].fork /\ \E h \in rootEnds : h > Rec[l].to))
+    /\ rootEnds' = IF Rec[l].fork THEN { h \in rootEnds : h <= Rec[l].to } ELSE rootEnds
 TTrunc == /\ IsEvent("trunc") /\ UNCHANGED locks /\ UNCHANGED sugg
           /\ \/ /\ Rec[l].res = "ok" /\ ~Rec[l].cs /\ TruncTo(Rec[l].to)
              \/ /\ Rec[l].res = "ok" /\ Rec[l].cs /\ Rec[l].to = Rec[l].req
@@ -223,8 +233,11 @@ TSuggest == /\ IsEvent("suggest")
             /\ PostOK(Rec[l].post)
 \* subtree roots of completed shards arrive (put_*_subtree_roots): no effect on the ledger, the scanned set or the tip
 TRoots == /\ IsEvent("roots")
-          /\ (Rec[l].res = "ok" \/ (Rec[l].res = "err" /\ taint /\ KnownStale("subtree root refused")))   \* the C06 finding also makes root insertion conflict
-          /\ UNCHANGED wvars /\ UNCHANGED cvars /\ UNCHANGED locks /\ UNCHANGED sugg
+          /\ \/ Rec[l].res = "ok"
+             \/ (Rec[l].res = "err" /\ taint /\ KnownStale("subtree root refused"))   \* the C06 findings also make root insertion conflict
+             \/ (Rec[l].res = "err" /\ taintR /\ KnownStaleRoot("subtree root refused"))
+          /\ rootEnds' = IF Rec[l].res = "ok" THEN rootEnds \cup { Rec[l].h } ELSE rootEnds
+          /\ UNCHANGED wvars /\ UNCHANGED << grid, gbase, cmAt, covered, lostOK, mck, mret, taintR >> /\ UNCHANGED locks /\ UNCHANGED sugg
           /\ PostOK(Rec[l].post)
 TSyncDone == /\ IsEvent("syncdone")
              /\ sugg = << >> /\ top >= 1 /\ scanned = 1..top /\ tip = top
@@ -317,7 +330,7 @@ TCreate == /\ IsEvent("create") /\ UNCHANGED sugg /\ UNCHANGED cvars
               \/ Rec[l].res = "err" /\ UNCHANGED wvars /\ UNCHANGED locks     \* refusals (stale proposal, missing witness): no effect
            /\ PostOK(Rec[l].post)
 
-TraceInit == Init /\ l = 1 /\ locks = << >> /\ sugg = << >> /\ grid = 0 /\ gbase = 0 /\ cmAt = << >> /\ covered = {} /\ lostOK = {} /\ mck = EmptyCk /\ mret = EmptyCk
+TraceInit == Init /\ l = 1 /\ locks = << >> /\ sugg = << >> /\ grid = 0 /\ gbase = 0 /\ cmAt = << >> /\ covered = {} /\ lostOK = {} /\ mck = EmptyCk /\ mret = EmptyCk /\ rootEnds = {} /\ taintR = FALSE
 TraceNext == TReset \/ TBlock \/ TTip \/ TScan \/ TTrunc \/ TFresh \/ TPropose \/ TCreate \/ TLock \/ TUnlock \/ TClear \/ TSuggest \/ TSyncDone \/ TRoots
 TraceSpec == TraceInit /\ [][TraceNext]_tvars
 
